@@ -350,3 +350,177 @@ def regenerate():
         changed.append("gen/GuardTable.v")
     d["guards"] = summary
     return changed, d
+
+# ============================================================================ complex operators (C13)
+# A translator for the straight-line operator impls of src/complex/mod.rs: every `impl <Trait> for Complex<T>`
+# method body (let statements, compound assignments to self.real / self.imag, a final constructor call) becomes a
+# Gallina definition over an arbitrary `Arith` in gen/ComplexOps.v.  Proofs/ComplexGen.v proves each equal to the
+# hand-written model of Model/Complex.v (by conversion), so the theorems of C13 are re-checked against what the
+# source says on this run.
+CX_FUNCS = [
+    # (gallina name, impl-header regex, fn name, self var, other param name -> ('c' complex | 's' scalar), returns)
+    ("t_conj",        r"impl<T: Clone \+ Signed> Complex<T>", "conj", {}, "c"),
+    ("t_cneg",        r"impl<T: Clone \+ Signed> Neg for Complex<T>", "neg", {}, "c"),
+    ("t_cadd",        r"impl<T: Clone \+ Number> Add<Complex<T>> for Complex<T>", "add", {"plus": "c"}, "c"),
+    ("t_csub",        r"impl<T: Clone \+ Number> Sub<Complex<T>> for Complex<T>", "sub", {"minus": "c"}, "c"),
+    ("t_cmul",        r"impl<T: Clone \+ Number> Mul<Complex<T>> for Complex<T>", "mul", {"times": "c"}, "c"),
+    ("t_cdiv",        r"impl<T: Clone \+ Number> Div<Complex<T>> for Complex<T>", "div", {"divisor": "c"}, "c"),
+    ("t_cadd_r",      r"impl<T: Number> Add<T> for Complex<T>", "add", {"plus": "s"}, "c"),
+    ("t_csub_r",      r"impl<T: Number> Sub<T> for Complex<T>", "sub", {"minus": "s"}, "c"),
+    ("t_cmul_r",      r"impl<T: Clone \+ Number> Mul<T> for Complex<T>", "mul", {"scalar": "s"}, "c"),
+    ("t_cdiv_r",      r"impl<T: Clone \+ Number> Div<T> for Complex<T>", "div", {"scalar": "s"}, "c"),
+    ("t_cadd_assign", r"impl<T: Number> AddAssign for Complex<T>", "add_assign", {"rhs": "c"}, "self"),
+    ("t_csub_assign", r"impl<T: Number> SubAssign for Complex<T>", "sub_assign", {"rhs": "c"}, "self"),
+    ("t_cmul_assign", r"impl<T: Clone \+ Number> MulAssign for Complex<T>", "mul_assign", {"rhs": "c"}, "self"),
+    ("t_cdiv_assign", r"impl<T: Clone \+ Number> DivAssign for Complex<T>", "div_assign", {"rhs": "c"}, "self"),
+    ("t_cadd_assign_r", r"impl<T: Number> AddAssign<T> for Complex<T>", "add_assign", {"rhs": "s"}, "self"),
+    ("t_csub_assign_r", r"impl<T: Number> SubAssign<T> for Complex<T>", "sub_assign", {"rhs": "s"}, "self"),
+    ("t_cmul_assign_r", r"impl<T: Clone \+ Number> MulAssign<T> for Complex<T>", "mul_assign", {"rhs": "s"}, "self"),
+    ("t_cdiv_assign_r", r"impl<T: Clone \+ Number> DivAssign<T> for Complex<T>", "div_assign", {"rhs": "s"}, "self"),
+    ("t_abs_sqr",     r"impl<T: Clone \+ Number> Complex<T>", "abs_sqr", {}, "s"),
+]
+
+class _CxExpr:
+    """expression parser for the operator bodies: + - * / unary -, parentheses, .clone(), field access"""
+    TOK = re.compile(r"\s*(\.clone\(\)|Self::Output::new|Self::new|Complex::new|Zero::zero\(\)|One::one\(\)|[A-Za-z_][A-Za-z0-9_]*(?:\.(?:real|imag))?|\+|-|\*|/|\(|\)|,)")
+    def __init__(self, s):
+        self.t, i = [], 0
+        s = s.strip()
+        while i < len(s):
+            m = self.TOK.match(s, i)
+            if not m or m.end() == i: raise TieBroken("translator(complex): cannot tokenize %r at %r" % (s, s[i:i+20]))
+            self.t.append(m.group(1)); i = m.end()
+        self.i = 0
+    def peek(self): return self.t[self.i] if self.i < len(self.t) else None
+    def eat(self, x=None):
+        tok = self.peek()
+        if x is not None and tok != x: raise TieBroken("translator(complex): expected %r got %r" % (x, tok))
+        self.i += 1; return tok
+    def expr(self):
+        l = self.term()
+        while self.peek() in ("+", "-"):
+            op = self.eat(); l = (op, l, self.term())
+        return l
+    def term(self):
+        l = self.unary()
+        while self.peek() in ("*", "/"):
+            op = self.eat(); l = (op, l, self.unary())
+        return l
+    def unary(self):
+        if self.peek() == "-": self.eat(); return ("neg", self.unary())
+        return self.post()
+    def post(self):
+        tok = self.eat()
+        if tok == "(":
+            e = self.expr(); self.eat(")")
+        elif tok in ("Self::Output::new", "Self::new", "Complex::new"):
+            self.eat("("); a = self.expr(); self.eat(","); b = self.expr(); self.eat(")"); e = ("new", a, b)
+        elif tok == "Zero::zero()": e = ("zero",)
+        elif tok == "One::one()": e = ("one",)
+        elif tok is None or not re.match(r"[A-Za-z_]", tok): raise TieBroken("translator(complex): unexpected token %r" % tok)
+        else: e = ("var", tok)
+        while self.peek() == ".clone()": self.eat()
+        return e
+
+def _cx_translate(name, body, params, returns):
+    """returns Gallina text of the definition body (a `res`-monadic let chain when a division occurs)"""
+    stmts = [s.strip() for s in body.split(";")]
+    stmts = [s for s in stmts if s]
+    env = {"self.real": "(re z)", "self.imag": "(im z)"}
+    for p, kind in params.items():
+        if kind == "c": env[p + ".real"] = "(re w)"; env[p + ".imag"] = "(im w)"
+        else: env[p] = "r"
+    lines, counter, uses_div = [], [0], [False]
+    def fresh(base):
+        counter[0] += 1; return "%s%d" % (base, counter[0])
+    def emit(e):
+        """expression -> atom/term text, emitting let* for divisions (left to right)"""
+        k = e[0]
+        if k == "var":
+            if e[1] not in env: raise TieBroken("translator(complex): %s: unknown identifier %r" % (name, e[1]))
+            return env[e[1]]
+        if k == "zero": return "zero"
+        if k == "one": return "one"
+        if k == "neg": return "(neg %s)" % emit(e[1])
+        if k in ("+", "-", "*"):
+            a = emit(e[1]); b = emit(e[2])
+            return "(%s %s %s)" % ({"+": "add", "-": "sub", "*": "mul"}[k], a, b)
+        if k == "/":
+            a = emit(e[1]); b = emit(e[2]); v = fresh("q")
+            lines.append("let* %s := div %s %s in" % (v, a, b)); uses_div[0] = True
+            return v
+        raise TieBroken("translator(complex): %s: unexpected expression %r" % (name, e))
+    result = None
+    for s in stmts:
+        m = re.match(r"^let\s+(?:mut\s+)?([a-z_][a-z0-9_]*)\s*(?::\s*[A-Za-z0-9_<>]+)?\s*=\s*(.*)$", s, re.S)
+        if m:
+            v = fresh(m.group(1)); t = emit(_CxExpr(m.group(2)).expr())
+            lines.append("let %s := %s in" % (v, t)); env[m.group(1)] = v; continue
+        m = re.match(r"^(self\.real|self\.imag)\s*(\+|-|\*|/)=\s*(.*)$", s, re.S)
+        if m:
+            tgt, op, rhs = m.groups()
+            e = (op, ("var", tgt), _CxExpr(rhs).expr())
+            t = emit(e); v = fresh("real" if tgt == "self.real" else "imag")
+            lines.append("let %s := %s in" % (v, t)); env[tgt] = v; continue
+        # final expression
+        e = _CxExpr(s).expr()
+        if e[0] == "new":
+            a = emit(e[1]); b = emit(e[2]); result = "(mkC %s %s)" % (a, b)
+        else:
+            result = emit(e)
+    if returns == "self":
+        if result is not None: raise TieBroken("translator(complex): %s: assignment operator returns a value" % name)
+        result = "(mkC %s %s)" % (env["self.real"], env["self.imag"])
+    if result is None: raise TieBroken("translator(complex): %s: no result expression" % name)
+    final = ("Ok %s" % result) if uses_div[0] else result
+    return "\n  ".join(lines + [final]), uses_div[0]
+
+def render_complex_ops():
+    src = strip_rust_comments(_src("src/complex/mod.rs"))
+    L = ["(* gen/ComplexOps.v -- the operator impls of src/complex/mod.rs, REGENERATED from /repo/src by driver/translate.py",
+         "   on every check run (straight-line bodies translated statement by statement; `/` is the fallible `div`). *)",
+         "From OV Require Import Base.Panic Base.Arith Model.Complex.", "Section CxGen.", "Context {A : Arith}.", ""]
+    sig = {}
+    for (gname, header, fn, params, returns) in CX_FUNCS:
+        hs = [m for m in re.finditer(header, src)]
+        if len(hs) != 1:
+            raise TieBroken("translator(complex): impl header %r found %d times" % (header, len(hs)))
+        ib = fn_body(src, header, None, gname)          # the impl block
+        fb = fn_body(ib, r"fn\s+%s\s*\(" % fn, None, gname)
+        hdr = re.search(r"fn\s+%s\s*\(([^)]*)\)" % fn, ib).group(1)
+        for p in params:
+            if not re.search(r"\b%s\s*:" % p, hdr):
+                raise TieBroken("translator(complex): %s: parameter %r not found in `fn %s(%s)`" % (gname, p, fn, hdr))
+        body, fallible = _cx_translate(gname, fb, params, returns)
+        args = "(z : cplx A)" + (" (w : cplx A)" if "c" in params.values() else "") + (" (r : A)" if "s" in params.values() else "")
+        rty = "A" if returns == "s" else "cplx A"
+        if fallible: rty = "res (%s)" % rty
+        L.append("Definition %s %s : %s :=\n  %s." % (gname, args, rty, body))
+        sig[gname] = fallible
+    # eq / partial_cmp / zero / one: fixed shapes, checked textually
+    eqb = fn_body(fn_body(src, r"impl<T: Clone \+ Number> PartialEq for Complex<T>", None, "eq"), r"fn\s+eq\s*\(", None, "eq")
+    if re.sub(r"\s+", "", eqb) != "self.real==other.real&&self.imag==other.imag":
+        raise TieBroken("translator(complex): unexpected body of PartialEq::eq: %r" % eqb.strip())
+    L.append("Definition t_ceqb (z w : cplx A) : bool := andb (eqb (re z) (re w)) (eqb (im z) (im w)).")
+    pc = fn_body(fn_body(src, r"impl<T: Clone \+ Number \+ std::cmp::PartialOrd> PartialOrd for Complex<T>", None, "partial_cmp"), r"fn\s+partial_cmp\s*\(", None, "partial_cmp")
+    if re.sub(r"\s+", "", pc) != "ifself.real!=other.real{self.real.partial_cmp(&other.real)}else{self.imag.partial_cmp(&other.imag)}":
+        raise TieBroken("translator(complex): unexpected body of PartialOrd::partial_cmp: %r" % pc.strip())
+    L.append("Definition t_ccmp {X} (cmp : A -> A -> X) (z w : cplx A) : X :=\n  if negb (eqb (re z) (re w)) then cmp (re z) (re w) else cmp (im z) (im w).")
+    zb = fn_body(fn_body(src, r"impl<T: Clone \+ Number> Zero for Complex<T>", None, "zero"), r"fn\s+zero\s*\(", None, "zero")
+    ob = fn_body(fn_body(src, r"impl<T: Clone \+ Number> One for Complex<T>", None, "one"), r"fn\s+one\s*\(", None, "one")
+    zt, _ = _cx_translate("t_czero", zb, {}, "c"); ot, _ = _cx_translate("t_cone", ob, {}, "c")
+    L.append("Definition t_czero : cplx A := %s." % zt)
+    L.append("Definition t_cone : cplx A := %s." % ot)
+    fm = fn_body(fn_body(src, r"impl Mul<Complex<f64>> for f64", None, "f64*complex"), r"fn\s+mul\s*\(", None, "f64*complex")
+    if re.sub(r"\s+", "", fm) != "complex*self":
+        raise TieBroken("translator(complex): unexpected body of f64 * Complex: %r" % fm.strip())
+    L.append("Definition t_rmul_c (r : A) (z : cplx A) : cplx A := t_cmul_r z r.")
+    L += ["", "End CxGen.", ""]
+    return "\n".join(L)
+
+_regen_guards = regenerate
+def regenerate():
+    changed, d = _regen_guards()
+    if write_if_changed(os.path.join(COQDIR, "gen", "ComplexOps.v"), render_complex_ops()):
+        changed.append("gen/ComplexOps.v")
+    return changed, d
